@@ -710,7 +710,7 @@ func (f *Frame) doAppend(cc *ssa.CallCommon, args []Val, rt types.Type, st *Stat
 		if isStr {
 			return "(sat " + t.T + " " + i + ")"
 		}
-		return "(select (select " + mem + " (sl.base " + t.T + ")) " + c.iadd("(sl.off "+t.T+")", i) + ")"
+		return "(select (select " + mem + " (sl.base " + t.T + ")) " + c.eidx("(sl.off "+t.T+")", i) + ")"
 	}
 	oldArr := "(select " + mem + " " + sBase + ")"
 	newBase := c.newRef(st, "append")
@@ -777,7 +777,7 @@ func (f *Frame) doCopy(args []Val, rt types.Type, st *State, pos token.Pos) Val 
 		if isStr {
 			return "(sat " + s.T + " " + i + ")"
 		}
-		return "(select (select " + mem + " (sl.base " + s.T + ")) " + c.iadd("(sl.off "+s.T+")", i) + ")"
+		return "(select (select " + mem + " (sl.base " + s.T + ")) " + c.eidx("(sl.off "+s.T+")", i) + ")"
 	}
 	dOff := "(sl.off " + d.T + ")"
 	oldArr := "(select " + mem + " (sl.base " + d.T + "))"
